@@ -58,6 +58,33 @@ def gen_rules(rng):
     return rules
 
 
+def edit_rules(rng, rules):
+    """An edit of the table as an administrator would make it before a SIGUSR1: mostly values changed in place."""
+    import copy
+    out = copy.deepcopy(rules)
+    real = [r for r in out if "_plain" not in r]
+    if not real:
+        return gen_rules(rng)
+    for _ in range(rng.choice([1, 1, 2, 3])):
+        r = rng.choice(real)
+        how = rng.random()
+        pools = {"account": ACCT_PATS, "address": ADDR_PATS, "username": USER_PATS, "hostname": HOST_PATS}
+        present = [k for k in pools if k in r]
+        if how < 0.5 and present:
+            k = rng.choice(present)
+            r[k] = rng.choice([x for x in pools[k] if x != r[k]])
+        elif how < 0.7:
+            r["class"] = rng.choice(["moved", "c-" + r["name"].lower() + "2", "Users"])
+        elif how < 0.85:
+            k = rng.choice(sorted(pools))
+            r[k] = rng.choice(pools[k])
+        elif present:
+            del r[rng.choice(present)]
+        else:
+            r["trust_username"] = rng.choice(["yes", "no"])
+    return out
+
+
 def probe(s, rng, cid, rules, ip=None):
     """One probe client: attributes chosen to hit or just miss the criteria, then forced to a verdict."""
     ip0 = rng.choice(IPS)
@@ -150,7 +177,14 @@ def _worker(a):
     cfg = proto.Config(svcs, timeout=3600, rules=rules, use_class=True)
     s = proto.Session(b, cfg, leaks=True)
     try:
+        # every second table is edited (mostly values in place) and re-read through a real SIGUSR1 once or twice while the
+        # probing goes on: the rules in force at acceptance time are those of the file read last
+        rr = random.Random(seed ^ 0x2545f491)
+        reload_at = sorted(rr.sample(range(4, nprobes - 2), rr.choice([1, 2]))) if (seed % 2 and nprobes > 10) else []
         for k in range(nprobes):
+            if k in reload_at:
+                rules = edit_rules(rr, rules)
+                s.do({"t": "reload", "services": [list(x) for x in svcs], "rules": rules})
             probe(s, rng, 10 + k, rules)
             if s.dead:
                 break
